@@ -217,6 +217,9 @@ def rebuild_ops(im, k, n, rng, edit):
                 if op[2] in ("Entity", "Agent") or op[2] in ("Start", "End"):
                     op[2] = swap[op[2]]
                     changed = True
+                elif op[2] == "Specialization" and rng.random() < 0.7:
+                    op[2] = "Mention"          # a subclass with the same first two formal attributes
+                    changed = True
     bundles_idx = [i for i, (t, _) in enumerate(rec_ops) if t == "bundle"]
     if edit == "add-bundle":
         rec_ops.append(("bundle", ["NewBundle", str(n), ["Q", "exv", "http://variant.test/", "extra-bundle"]]))
